@@ -795,3 +795,271 @@ Proof.
   - congruence.
   - exact ou_nfc1.
 Qed.
+
+(* ------------------------------------------------------------------------------------------ *)
+(* 7. from define_step to define_step_new; what acceptance tells about the outputs             *)
+(* ------------------------------------------------------------------------------------------ *)
+(* guard peeling: every `if g then Usage/Internal else ...` in front of the body *)
+Lemma define_step_new_of_ok c L inp env out vol nd s s' :
+  define_step c L inp env out vol nd s = Ok s' -> find_node (KStep, L) s = None ->
+  define_step_new c L inp env out vol nd s = Ok s'.
+Proof.
+  unfold define_step. intros H F.
+  repeat match type of H with
+         | (if ?g then _ else _) = Ok _ => destruct g; [discriminate|]
+         end.
+  rewrite F in H. exact H.
+Qed.
+
+Lemma claims_fold_none ps s : forall u,
+  foldM (fun (u : unit) l => do _ <- check_declaration_phrase l s; Ok tt) ps tt = Ok u ->
+  forall l, In l ps -> existing_claim l s = Ok None.
+Proof.
+  induction ps as [|p ps IH]; intros u H l Hl; [contradiction|].
+  cbn [foldM] in H. unfold check_declaration_phrase in H at 1.
+  destruct (existing_claim p s) as [[cl|]|t|t] eqn:E; cbn [bind] in H; try discriminate.
+  destruct Hl as [<-|Hl]; [exact E|]. eapply IH; eassumption.
+Qed.
+
+Lemma define_new_claims c L inp env out vol nd s s' :
+  define_step_new c L inp env out vol nd s = Ok s' ->
+  forall l, In l out \/ In l vol -> existing_claim l s = Ok None.
+Proof.
+  unfold define_step_new. intros H l Hl.
+  destruct (foldM _ out tt) as [u1|t|t] eqn:F1; cbn [bind] in H; try discriminate.
+  destruct (foldM _ vol tt) as [u2|t|t] eqn:F2; cbn [bind] in H; try discriminate.
+  destruct Hl as [Hl|Hl]; [eapply claims_fold_none in F1 | eapply claims_fold_none in F2]; eassumption.
+Qed.
+
+(* a path freshly declared by an attached creator carries a claim *)
+Lemma claim_some_of_views l s cre st0 h :
+  node_view (KFile, l) s = Some (Some cre, false) -> file_view l s = Some (st0, h) ->
+  st0 <> FUndeclared -> existing_claim l s <> Ok None.
+Proof.
+  unfold existing_claim, node_view, file_view. intros Hn Hf Hs.
+  destruct (find_node (KFile, l) s) as [n|]; [|discriminate]. inversion Hn as [[Hc Hd]].
+  destruct (find_file l s) as [r|]; [|discriminate]. inversion Hf as [[Hst Hh]].
+  rewrite Hd, Hc, Hst. destruct st0; cbn; discriminate.
+Qed.
+
+(* re-declaring static a node that an input supply has just (re)created keeps the same hash rule *)
+Lemma hh_after_undeclared o (h : option N) :
+  (if clears_hash (nst FUndeclared (Some o)) FUnconfirmed then None
+   else (if clears_hash o (nst FUndeclared (Some o)) then None else h)) =
+  (if clears_hash o FUnconfirmed then None else h).
+Proof. destruct o; cbn; reflexivity. Qed.
+
+(* ------------------------------------------------------------------------------------------ *)
+(* 8. declarations_commute, pair (static, define) in the fresh fragment                        *)
+(* ------------------------------------------------------------------------------------------ *)
+Lemma mem_filter (p : str -> bool) x ps : mem_str x (filter p ps) = mem_str x ps && p x.
+Proof.
+  induction ps as [|y ps IH]; cbn [filter mem_str existsb]; [reflexivity|]. fold (mem_str x ps) in *.
+  destruct (p y) eqn:P; cbn [mem_str existsb]; fold (mem_str x (filter p ps)); rewrite IH.
+  - destruct (str_eqb x y) eqn:E; cbn [orb]; [|reflexivity].
+    apply str_eqb_eq in E. subst y. rewrite P. rewrite andb_true_r. destruct (mem_str x ps); reflexivity.
+  - destruct (str_eqb x y) eqn:E; cbn [orb]; [|reflexivity].
+    apply str_eqb_eq in E. subst y. rewrite P, !andb_false_r. reflexivity.
+Qed.
+
+Lemma find_node_none_view k s : find_node k s = None <-> node_view k s = None.
+Proof. unfold node_view. destruct (find_node k s); split; intros H; congruence. Qed.
+
+Lemma claim_none_of_recreated s l : recreated s l = true -> existing_claim l s = Ok None.
+Proof.
+  unfold recreated, existing_claim, node_view.
+  destruct (find_node (KFile, l) s) as [n|]; [|reflexivity].
+  destruct (ncre n) eqn:C; [discriminate|]. intros _.
+  destruct (find_file l s); [|reflexivity]. destruct (ndet n); reflexivity.
+Qed.
+
+(* a static declaration meets a path that a step (attached) builds or declares volatile *)
+Lemma check_static_vs_product c l s cre st0 h :
+  node_view (KFile, l) s = Some (Some cre, false) -> file_view l s = Some (st0, h) ->
+  role_of st0 = Some 62 \/ role_of st0 = Some 63 ->
+  check_declaration_node c l 61 s = Usage 202.
+Proof.
+  unfold check_declaration_node, existing_claim, node_view, file_view. intros Hn Hf Hr.
+  destruct (find_node (KFile, l) s) as [n|]; [|discriminate]. inversion Hn as [[Hc Hd]].
+  destruct (find_file l s) as [r|]; [|discriminate]. inversion Hf as [[Hst Hh]].
+  rewrite Hd, Hc, Hst. destruct Hr as [-> | ->]; reflexivity.
+Qed.
+
+Lemma role_of_nst_planned v : role_of (nst FPlanned v) = Some 62.
+Proof. destruct v as [[]|]; reflexivity. Qed.
+Lemma role_of_nst_volatile v : role_of (nst FVolatile v) = Some 63.
+Proof. destruct v as [[]|]; reflexivity. Qed.
+
+(* absent nodes have no edges (part of inv_deps_b) *)
+Definition deps_closed (s : st) : Prop := forall a b, existsn b s = false -> find_dep a b s = None.
+
+Theorem static_define_commute (s sa sb s12 s21 : st) (c1 : key) (ps : list str)
+        (c2 : key) (L : str) (inp env out vol : list str) (nd : need) :
+  not_file c1 -> not_file c2 -> NoDup ps -> attached c1 s = true -> attached c2 s = true ->
+  fresh_define L inp out vol s -> deps_closed s ->
+  step_op (OpDeclareStatic c1 ps) s = Ok sa ->
+  step_op (OpDefineStep c2 L inp env out vol nd) sa = Ok s12 ->
+  step_op (OpDefineStep c2 L inp env out vol nd) s = Ok sb ->
+  step_op (OpDeclareStatic c1 ps) sb = Ok s21 ->
+  st_equiv s12 s21.
+Proof.
+  cbn [step_op]. intros Hf1 Hf2 NDp Ha1 Ha2 FD DC R1 R12 R2 R21.
+  pose proof FD as FD0.
+  destruct FD as [fd_label0 fd_nfc0 fd_nd_inp0 fd_nd_out0 fd_nd_vol0 fd_io0 fd_iv0 fd_ov0 fd_nb_inp0 fd_nb_out0].
+  apply static_request_spec in R1 as [S1 _]; try assumption.
+  set (T := filter (newb c1 s) ps) in *. pose proof S1 as S1'.
+  destruct S1 as [sd_node0 sd_file0 sd_steps0 sd_envs0 sd_cap0 sd_dep0 sd_hash0 sd_sinks0 sd_nfc0].
+  assert (Hd1 : is_detached c1 s = false) by (unfold attached in Ha1; apply negb_true_iff in Ha1; exact Ha1).
+  assert (Hd2 : is_detached c2 s = false) by (unfold attached in Ha2; apply negb_true_iff in Ha2; exact Ha2).
+  (* the define request after the static one *)
+  assert (FLa : find_node (KStep, L) sa = None).
+  { apply find_node_none_view. rewrite sd_node0, in_files_step. apply find_node_none_view. exact fd_label0. }
+  apply define_step_new_of_ok in R12; [|exact FLa].
+  pose proof (define_new_claims _ _ _ _ _ _ _ _ _ R12) as CLa.
+  assert (TnotOV : forall l, mem_str l T = true -> mem_str l out = false /\ mem_str l vol = false).
+  { intros l MT.
+    assert (NC : existing_claim l sa <> Ok None).
+    { eapply claim_some_of_views; [rewrite sd_node0; cbn [in_files]; rewrite MT, Hd1; reflexivity
+                                   | rewrite sd_file0, MT; reflexivity | discriminate]. }
+    split.
+    - destruct (mem_str l out) eqn:M; [|reflexivity]. exfalso. apply NC. apply CLa. left. apply mem_str_In. exact M.
+    - destruct (mem_str l vol) eqn:M; [|reflexivity]. exfalso. apply NC. apply CLa. right. apply mem_str_In. exact M. }
+  assert (RCa : forall l, recreated sa l = if mem_str l T then false else recreated s l).
+  { intros l. unfold recreated. rewrite sd_node0. cbn [in_files]. destruct (mem_str l T); reflexivity. }
+  assert (FDa : fresh_define L inp out vol sa).
+  { constructor; try assumption.
+    - intros l Hl Hr. rewrite RCa in Hr. destruct (mem_str l T) eqn:MT; [discriminate|].
+      unfold not_built. rewrite sd_file0, MT. apply fd_nb_inp0; assumption.
+    - intros l Hl. unfold not_built. rewrite sd_file0.
+      destruct (mem_str l T) eqn:MT.
+      + apply TnotOV in MT as [MO _]. apply mem_str_In in Hl. congruence.
+      + apply fd_nb_out0. exact Hl. }
+  apply define_step_new_spec in R12; [|exact FDa]. 
+  (* the define request first *)
+  apply define_step_new_of_ok in R2; [|exact fd_label0].
+  apply define_step_new_spec in R2; [|exact FD0].
+  pose proof R2 as D2.
+  destruct R2 as [df_node0 df_file0 df_step0 df_dep0 df_hash0 df_env0 df_cap0 df_nfc0].
+  apply static_request_spec in R21 as [S21 All21]; try assumption.
+  assert (PnotOV : forall l, In l ps -> mem_str l out = false /\ mem_str l vol = false).
+  { intros l Hl. destruct (All21 l Hl) as [b Hb].
+    assert (NK : key_eqb (KFile, l) (KStep, L) = false) by reflexivity.
+    split.
+    - destruct (mem_str l out) eqn:M; [|reflexivity]. exfalso.
+      assert (Hn : node_view (KFile, l) sb = Some (Some (KStep, L), false)).
+      { rewrite df_node0, NK. cbn [in_files]. rewrite M, Hd2. reflexivity. }
+      assert (Hfv : file_view l sb = Some (nst FPlanned (old_state (file_view l s)), nhash FPlanned (file_view l s))).
+      { rewrite df_file0, M. reflexivity. }
+      rewrite (check_static_vs_product c1 l sb _ _ _ Hn Hfv (or_introl (role_of_nst_planned _))) in Hb.
+      discriminate.
+    - destruct (mem_str l vol) eqn:M; [|reflexivity]. exfalso.
+      assert (MO : mem_str l out = false).
+      { destruct (mem_str l out) eqn:MO; [rewrite (fd_ov0 l MO) in M; discriminate | reflexivity]. }
+      assert (Hn : node_view (KFile, l) sb = Some (Some (KStep, L), false)).
+      { rewrite df_node0, NK. cbn [in_files]. rewrite MO, M, Hd2. reflexivity. }
+      assert (Hfv : file_view l sb = Some (nst FVolatile (old_state (file_view l s)), nhash FVolatile (file_view l s))).
+      { rewrite df_file0, MO, M. reflexivity. }
+      rewrite (check_static_vs_product c1 l sb _ _ _ Hn Hfv (or_intror (role_of_nst_volatile _))) in Hb.
+      discriminate. }
+  assert (ET : filter (newb c1 sb) ps = T).
+  { apply filter_ext_in. intros l Hl. destruct (PnotOV l Hl) as [MO MV].
+    destruct (mem_str l (filter (recreated s) inp)) eqn:MR.
+    - rewrite mem_filter in MR. apply andb_true_iff in MR as [MI RC].
+      rewrite (claim_none_newb c1 s l (claim_none_of_recreated s l RC)).
+      apply claim_none_newb. apply claim_none_of_recreated. unfold recreated.
+      rewrite df_node0. cbn [in_files]. change (key_eqb (KFile, l) (KStep, L)) with false.
+      rewrite MO, MV. cbn [orb]. rewrite mem_filter, RC, MI. reflexivity.
+    - unfold newb. rewrite (check_declaration_view c1 l 61 sb s); [reflexivity| |].
+      + rewrite df_node0. change (key_eqb (KFile, l) (KStep, L)) with false. cbn [in_files].
+        rewrite MO, MV, MR. reflexivity.
+      + rewrite df_file0, MO, MV, MR. reflexivity. }
+  rewrite ET in S21.
+  destruct S21 as [sd_node1 sd_file1 sd_steps1 sd_envs1 sd_cap1 sd_dep1 sd_hash1 sd_sinks1 sd_nfc1].
+  pose proof R12 as D12.
+  destruct R12 as [df_node1 df_file1 df_step1 df_dep1 df_hash1 df_env1 df_cap1 df_nfc1].
+  (* detached flags of the issuers are not touched *)
+  assert (Dc2a : is_detached c2 sa = is_detached c2 s).
+  { rewrite !is_detached_view, sd_node0.
+    destruct c2 as [[] x]; cbn [in_files]; try reflexivity.
+    exfalso. apply Hf2. reflexivity. }
+  assert (MTps : forall l, mem_str l T = true -> In l ps) by (intros l M; eapply mem_filter_sub; exact M).
+  constructor.
+  - (* nodes *)
+    intros k. rewrite df_node1, sd_node1, df_node0, sd_node0.
+    destruct k as [kk x]. destruct kk; cbn [in_files orb]; try reflexivity.
+    + change (key_eqb (KFile, x) (KStep, L)) with false. cbn iota.
+      rewrite !mem_filter, RCa.
+      destruct (mem_str x T) eqn:MT.
+      * destruct (TnotOV x MT) as [-> ->]. cbn [orb]. rewrite andb_false_r.
+        rewrite !is_detached_view, df_node0.
+        destruct c1 as [[] y]; cbn [in_files orb]; try reflexivity.
+        -- exfalso. apply Hf1. reflexivity.
+        -- destruct (key_eqb (KStep, y) (KStep, L)) eqn:E; [|reflexivity].
+           apply key_eqb_eq in E. inversion E; subst y.
+           unfold attached, is_detached in Ha1. rewrite fd_label0 in Ha1. discriminate.
+      * rewrite Dc2a. reflexivity.
+    + rewrite Dc2a. reflexivity.
+  - (* files *)
+    intros l. rewrite df_file1, sd_file1, df_file0, sd_file0, !mem_filter, RCa.
+    destruct (mem_str l T) eqn:MT.
+    + destruct (TnotOV l MT) as [-> ->]. rewrite andb_false_r. f_equal. f_equal.
+      rewrite !hh_view, df_file0. destruct (PnotOV l (MTps l MT)) as [-> ->]. rewrite mem_filter.
+      destruct (mem_str l inp && recreated s l); [|reflexivity].
+      destruct (file_view l s) as [[o h]|]; [|reflexivity]. cbn [old_state nhash].
+      symmetry. apply hh_after_undeclared.
+    + reflexivity.
+  - (* steps *)
+    intros l. rewrite df_step1, (step_view_of_steps _ _ sd_steps1), df_step0, (step_view_of_steps _ _ sd_steps0).
+    reflexivity.
+  - (* deps *)
+    intros a b. rewrite df_dep1, sd_dep1, df_dep0, sd_dep0, !existsn_view, sd_node0, df_node0.
+    destruct b as [kk x]. destruct kk; cbn [in_files orb andb]; try reflexivity.
+    change (key_eqb (KFile, x) (KStep, L)) with false. cbn [andb]. cbn iota.
+    rewrite !mem_filter, RCa.
+    destruct (mem_str x T) eqn:MT.
+    + destruct (TnotOV x MT) as [-> ->]. cbn [orb andb]. rewrite andb_false_r. cbn [andb].
+      destruct (mem_str x inp && recreated s x) eqn:MR; cbn [is_some andb].
+      * (* static(x) and input x of the new step, x absent or an orphan *)
+        destruct (is_some (node_view (KFile, x) s)) eqn:EX; [reflexivity|].
+        apply DC. rewrite existsn_view. exact EX.
+      * destruct (is_some (node_view (KFile, x) s)); reflexivity.
+    + cbn [andb]. reflexivity.
+  - (* stored hashes *)
+    intros x. rewrite df_hash1, sd_hash1, df_hash0, sd_hash0.
+    rewrite (existsb_ext_in (fun l => lostb sa l x) (fun l => lostb s l x) out).
+    2:{ intros y Hy. rewrite !lostb_view, sd_node0. cbn [in_files].
+        destruct (mem_str y T) eqn:MT; [|reflexivity].
+        apply TnotOV in MT as [MO _]. apply mem_str_In in Hy. congruence. }
+    rewrite (existsb_ext_in (fun l => lostb sa l x) (fun l => lostb s l x) vol).
+    2:{ intros y Hy. rewrite !lostb_view, sd_node0. cbn [in_files].
+        destruct (mem_str y T) eqn:MT; [|reflexivity].
+        apply TnotOV in MT as [_ MV]. apply mem_str_In in Hy. congruence. }
+    rewrite (existsb_ext_in (fun l => lostb sb l x) (fun l => lostb s l x) T).
+    2:{ intros y Hy. apply mem_str_In in Hy. destruct (PnotOV y (MTps y Hy)) as [MO MV].
+        rewrite !lostb_view, df_node0. change (key_eqb (KFile, y) (KStep, L)) with false.
+        cbn [in_files]. rewrite MO, MV. cbn [orb]. rewrite mem_filter.
+        destruct (mem_str y inp && recreated s y) eqn:MR; [|reflexivity].
+        apply andb_true_iff in MR as [_ RC]. rewrite <- lostb_view. symmetry. apply lostb_orphan. exact RC. }
+    destruct (has_hash x s), (existsb (fun l => lostb s l x) T), (existsb (fun l => lostb s l x) out),
+             (existsb (fun l => lostb s l x) vol); reflexivity.
+  - (* env rows *)
+    intros st0 nm. rewrite df_env1. unfold find_env at 2. rewrite sd_envs1. fold (find_env st0 nm sb).
+    rewrite df_env0. unfold find_env. rewrite sd_envs0. reflexivity.
+  - congruence.
+Qed.
+
+Lemma inv_deps_closed s : inv_deps_b s = true -> deps_closed s.
+Proof.
+  unfold inv_deps_b, deps_closed. intros H a b Hex. apply andb_true_iff in H as [H _].
+  rewrite forallb_forall in H. unfold find_dep.
+  destruct (find (fun d => key_eqb (dsrc d) a && key_eqb (dsnk d) b) (deps s)) as [d|] eqn:F; [|reflexivity].
+  exfalso. apply find_some in F as [Hin Hd]. apply andb_true_iff in Hd as [_ Hb]. apply key_eqb_eq in Hb.
+  specialize (H d Hin). apply andb_true_iff in H as [_ H]. rewrite Hb in H.
+  unfold existsn in Hex. congruence.
+Qed.
+Lemma inv_b_deps_closed s : inv_b s = true -> deps_closed s.
+Proof.
+  unfold inv_b. intros H.
+  repeat (match type of H with (andb _ _ = true) => apply andb_true_iff in H as [H ?] end).
+  apply inv_deps_closed. assumption.
+Qed.
